@@ -75,7 +75,13 @@ fn gen_value(r: &mut Rng, g: &RawGen, sg: &SemGen, lang: &str, dec: &str, today:
             let y = match r.below(4) { 0 | 1 => today.0, 2 => today.0 + 1 - r.below(3) as i64, _ => if r.chance(1, 5) { 1 + r.below(999) as i64 } else { 1000 + r.below(8000) as i64 } }.clamp(1, 9999);
             let m = 1 + r.below(12) as u32;
             let d = match r.below(4) { 0 => days_in_month(y, m), 1 => 1, _ => 1 + r.below(days_in_month(y, m) as u64) as u32 };
-            if r.chance(1, 6) { ("date".into(), if lang == "tr" { r.pick(&["bugün", "dün"]).to_string() } else { r.pick(&["today", "tomorrow", "yesterday"]).to_string() }) }
+            if lang == "en" && r.chance(1, 10) {
+                // a date that only arithmetic reaches (years 1..99 and other early years)
+                let base = 2000 + r.below(30) as i64;
+                let span = if r.chance(1, 2) { 99 } else { 900 }; let back = base - 1 - r.below(span) as i64;
+                ("date".into(), format!("{}/{}/{} - {} years", 1 + r.below(28), m, base, back.max(1)))
+            }
+            else if r.chance(1, 6) { ("date".into(), if lang == "tr" { r.pick(&["bugün", "dün"]).to_string() } else { r.pick(&["today", "tomorrow", "yesterday"]).to_string() }) }
             else { ("date".into(), format!("{}/{}/{}", d, m, y)) }
         }
         12 | 13 => {
